@@ -21,7 +21,13 @@ def main():
     if st:
         print("refusing: /repo has uncommitted changes:\n" + st)
         sys.exit(2)
-    r = sh("git -C %s apply %s" % (REPO, patch))
+    regen = "checkers/rulesdata/rulesdata.go" in open(patch).read() and "checkers/rules/rules.go" in open(patch).read()
+    r = sh("git -C %s apply %s %s" % (REPO, "--exclude=checkers/rulesdata/rulesdata.go" if regen else "", patch))
+    if r.returncode == 0 and regen:
+        # the seeded change edits the rule source and ships the regenerated rule data: regenerate on this tree instead
+        g = sh("cd %s/checkers && GOFLAGS=-mod=mod GOPROXY=off GOTOOLCHAIN=local go run ./rules/precompile.go -rules ./rules/rules.go -o ./rulesdata/rulesdata.go" % REPO)
+        if g.returncode != 0:
+            print("regeneration failed", g.stderr[-300:])
     if r.returncode != 0:
         r = sh("cd %s && patch -p1 --no-backup-if-mismatch < %s" % (REPO, patch))
         if r.returncode != 0:
